@@ -593,3 +593,84 @@ package sam
 //@   before call:GetVariantsPair#1: assert [c11.wiring] sameslice(arg(0), pair.ref) && sameslice(arg(1), pair.query) && arg(2) == pair.refname && arg(3) == pair.queryname && arg(4) == pair.idx && sameslice(arg(5), cdsregions) && sameslice(arg(6), intregions) && sameslice(arg(7), offsetRefCoord) && sameslice(arg(8), offsetMSACoord)
 //@   before call:GetMSAOffsets#1: assert [c11.offsets.of] sameslice(arg(0), pair.ref)
 //@   before send#2: assert [c11.forward] err == nil && AS.Queryname == pair.queryname && AS.Idx == pair.idx
+
+//@ # C02: re-gapping the rows of one query's records for each other's insertions, then flattening.
+//@ # Under contract: every re-gapping step INSERTS the gap run (the new row is the old row with '-' x length put in front
+//@ # of column start+offset; nothing is overwritten, F7), in both rows at the same column; rows handed to the flattening have
+//@ # equal lengths. The global statement (reference row without '-' is the reference, ...) is checked bounded: oracle sam_topa.
+//@ func blockToSeqPair
+//@   modifies everything
+//@   requires len(alignedBlock.seqpairArray) >= 1 && len(alignedBlock.cigarArray) == len(alignedBlock.seqpairArray) && len(alignedBlock.posArray) == len(alignedBlock.seqpairArray)
+//@   requires forall(a, 0, len(alignedBlock.seqpairArray), len(alignedBlock.seqpairArray[a].ref) == len(alignedBlock.seqpairArray[a].query))
+//@   requires forall(a, 0, len(alignedBlock.posArray), alignedBlock.posArray[a] >= 0)
+//@   loop 1:
+//@     invariant freshslice(insertions) && forall(a, 0, len(alignedBlock.posArray), alignedBlock.posArray[a] >= 0)
+//@     invariant forall(a, 0, len(insertions), insertions[a].start >= 0 && insertions[a].length >= 0)
+//@   loop 2:
+//@     invariant pos >= 0 && freshslice(insertions) && forall(a, 0, len(alignedBlock.posArray), alignedBlock.posArray[a] >= 0)
+//@     invariant forall(a, 0, len(insertions), insertions[a].start >= 0 && insertions[a].length >= 0)
+//@   loop 3:
+//@     invariant len(refSeqArray) == len(alignedBlock.seqpairArray) && len(queSeqArray) == len(alignedBlock.seqpairArray) && freshslice(refSeqArray) && freshslice(queSeqArray) && disjoint(refSeqArray, queSeqArray)
+//@     invariant forall(a, 0, range_i, len(refSeqArray[a]) == len(queSeqArray[a]))
+//@   loop 4:
+//@     invariant len(refSeqArray) == len(alignedBlock.seqpairArray) && len(queSeqArray) == len(alignedBlock.seqpairArray) && len(offsets) == len(alignedBlock.seqpairArray) && freshslice(refSeqArray) && freshslice(queSeqArray) && freshslice(offsets) && disjoint(refSeqArray, queSeqArray)
+//@     invariant forall(a, 0, len(offsets), offsets[a] >= 0)
+//@     invariant forall(a, 0, len(refSeqArray), len(refSeqArray[a]) == len(queSeqArray[a]))
+//@     invariant forall(a, 0, len(insertions), insertions[a].start >= 0 && insertions[a].length >= 0)
+//@   loop 5:
+//@     invariant len(refSeqArray) == len(alignedBlock.seqpairArray) && len(queSeqArray) == len(alignedBlock.seqpairArray) && len(offsets) == len(alignedBlock.seqpairArray) && freshslice(refSeqArray) && freshslice(queSeqArray) && freshslice(offsets) && disjoint(refSeqArray, queSeqArray)
+//@     invariant forall(a, 0, len(offsets), offsets[a] >= 0)
+//@     invariant forall(a, 0, len(refSeqArray), len(refSeqArray[a]) == len(queSeqArray[a]))
+//@     invariant insertion.start >= 0 && insertion.length >= 0
+//@   loop 7:
+//@     invariant max >= 0 && forall(a, 0, range_i, len(refSeqArray[a]) <= max)
+//@   loop 8:
+//@     writes everything
+//@     invariant freshslice(RBlock) && len(RBlock) == range_i && forall(a, 0, range_i, len(RBlock[a]) == max)
+//@     invariant len(refSeqArray) == len(alignedBlock.seqpairArray) && forall(a, 0, len(refSeqArray), len(refSeqArray[a]) <= max && len(refSeqArray[a]) == len(queSeqArray[a]))
+//@   loop 10:
+//@     writes everything
+//@     invariant freshslice(QBlock) && len(QBlock) == range_i && forall(a, 0, range_i, len(QBlock[a]) == max)
+//@     invariant len(queSeqArray) == len(alignedBlock.seqpairArray) && forall(a, 0, len(queSeqArray), len(queSeqArray[a]) <= max)
+//@   ensures [rows.equal] len(result.ref) == len(result.query)
+//@   after call:Sort#1: assert [hint.perm] forall(a, 0, len(insertions), 0 <= sortperm(a) && sortperm(a) < len(insertions) && insertions[a].start >= 0 && insertions[a].length >= 0)
+//@   after append#4: assert [c02.insert.ref] len(newRef) == len(refSeqArray[j]) + insertion.length && forall(k, 0, at, newRef[k] == refSeqArray[j][k]) && forall(k, 0, insertion.length, newRef[at + k] == '-') && forall(k, at, len(refSeqArray[j]), newRef[insertion.length + k] == refSeqArray[j][k])
+//@   after append#7: assert [c02.insert.query] len(newQue) == len(queSeqArray[j]) + insertion.length && forall(k, 0, at, newQue[k] == queSeqArray[j][k]) && forall(k, 0, insertion.length, newQue[at + k] == '-') && forall(k, at, len(queSeqArray[j]), newQue[insertion.length + k] == queSeqArray[j][k])
+
+//@ # C02/C15 window: refToMSA[b] = number of gap columns left of the b-th reference base, so b + refToMSA[b] is that base's column.
+//@ func getRefOffset
+//@   ghost bases int = 0
+//@   loop 1:
+//@     invariant degappedLen == count(k, 0, range_i, refseq[k] != '-')
+//@   loop 2:
+//@     invariant gapsum == count(k, 0, range_i, refseq[k] == '-') && bases == count(k, 0, range_i, refseq[k] != '-') && bases + gapsum == range_i
+//@     invariant len(refToMSA) == count(k, 0, len(refseq), refseq[k] != '-') && freshslice(refToMSA)
+//@     invariant forall(b, 0, bases, refToMSA[b] >= 0 && b + refToMSA[b] < range_i && refseq[b + refToMSA[b]] != '-' && count(k, 0, b + refToMSA[b], refseq[k] != '-') == b)
+//@     do-end if refseq[range_i] != '-' { bases++ }
+//@   ensures len(result) == count(k, 0, len(refseq), refseq[k] != '-') && freshslice(result)
+//@   ensures [column] forall(b, 0, len(result), result[b] >= 0 && b + result[b] < len(refseq) && refseq[b + result[b]] != '-' && count(k, 0, b + result[b], refseq[k] != '-') == b)
+
+//@ # trimAlignment: with --start/--end both rows are cut to the columns from the start-th reference base to the end-th
+//@ # reference base inclusive (insertion columns inside the window are kept); without a window pairs pass unchanged.
+//@ func trimAlignment
+//@   modifies cPairOut
+//@   requires implies(trim, 1 <= trimStart && trimStart <= trimEnd)
+//@   requires implies(trim, forall(t, 0, len(recv(cPairIn)), len(recv(cPairIn)[t].ref) == len(recv(cPairIn)[t].query) && trimEnd <= count(k, 0, len(recv(cPairIn)[t].ref), recv(cPairIn)[t].ref[k] != '-')))
+//@   loop 1:
+//@     invariant len(sent(cPairOut)) == range_i && forall(t, 0, range_i, sent(cPairOut)[t] == recv(cPairIn)[t])
+//@   loop 2:
+//@     invariant len(sent(cPairOut)) == range_i
+//@   before send#2: assert [c02.window] 0 <= adjTrimStart && adjTrimStart < adjTrimEnd && adjTrimEnd <= len(recv(cPairIn)[range_i].ref) && sameslice(pair.ref, recv(cPairIn)[range_i].ref[adjTrimStart:adjTrimEnd]) && sameslice(pair.query, recv(cPairIn)[range_i].query[adjTrimStart:adjTrimEnd])
+//@   before send#2: assert [c02.window.bases] recv(cPairIn)[range_i].ref[adjTrimStart] != '-' && count(k, 0, adjTrimStart, recv(cPairIn)[range_i].ref[k] != '-') == trimStart - 1 && recv(cPairIn)[range_i].ref[adjTrimEnd - 1] != '-' && count(k, 0, adjTrimEnd - 1, recv(cPairIn)[range_i].ref[k] != '-') == trimEnd - 1
+//@   before send#2: assert [c02.window.names] pair.refname == recv(cPairIn)[range_i].refname && pair.queryname == recv(cPairIn)[range_i].queryname && pair.idx == recv(cPairIn)[range_i].idx
+
+//@ # wrap (toPairAlign --wrap): every step appends the next at most w characters of the row and a newline; it stops when
+//@ # the row is used up; w <= 0 means the row and a newline.
+//@ func wrap
+//@   loop 1:
+//@     invariant written >= 0 && wrap > 0
+//@   after append#1: assert [c02.wrap.last] written < len(old) && written + wrap >= len(old) && len(new) == pre(1, len(new)) + len(old) - written + 1 && forall(k, 0, len(old) - written, new[pre(1, len(new)) + k] == old[written + k]) && new[len(new) - 1] == '\n'
+//@   after append#1: assert [c02.wrap.kept] forall(k, 0, pre(1, len(new)), new[k] == pre(1, new[k]))
+//@   after append#2: assert [c02.wrap.chunk] written + wrap < len(old) && len(new) == pre(1, len(new)) + wrap + 1 && forall(k, 0, wrap, new[pre(1, len(new)) + k] == old[written + k]) && new[len(new) - 1] == '\n'
+//@   after append#2: assert [c02.wrap.kept2] forall(k, 0, pre(1, len(new)), new[k] == pre(1, new[k]))
+//@   ensures [nowrap] implies(wrap <= 0, result == old + "\n")
